@@ -22,8 +22,9 @@ def _float(s):
         return None
 
 
-def lex(fb, text, max_tokens=12, raw=None):
-    """raw: a list that receives the abstract Result<Token> items as the lexer yields them (for feeding the parser)"""
+def lex(fb, text, max_tokens=12, raw=None, visited=None):
+    """raw: a list that receives the abstract Result<Token> items as the lexer yields them (for feeding the parser); visited: a set that
+    receives the names of the functions the run went through"""
     nxt = fb.find("<parser::lexer::Lexer as std::iter::Iterator>::next")
     lx = fb.adt("parser::lexer::Lexer")["variants"][0]["fields"]
     names = [f["name"] for f in lx]
@@ -123,10 +124,14 @@ def lex(fb, text, max_tokens=12, raw=None):
         try:
             r = mc.run(nxt, [lexer])
         except (absint.Stuck, absint.Loop) as e:
+            if visited is not None:
+                visited |= set(mc.visited)
             out.append(("stuck", str(e)))
             return out
+        if visited is not None:
+            visited |= set(mc.visited)
         if any(e[0] == "panic" for e in mc.events):
-            out.append(("panic", [e[1] for e in mc.events if e[0] == "panic"][0]))
+            out.append(("panic", [e[1] for e in mc.events if e[0] == "panic"][0], [e[2] for e in mc.events if e[0] == "panic" and len(e) > 2][:1]))
             return out
         if not isinstance(r, Enum):
             out.append(("stuck", "result %r" % (r,)))
@@ -299,3 +304,25 @@ def token_locations_verdict(fb):
         if got != want:
             return (False, text, got, want)
     return True
+
+
+SLICE_TEXTS = ['"ab\ncd" m1 ', '"\u00e9\n\u03bbx" m1 ', '"a\n" m1 ', '"\n\n" m1 ', '"\n" m1 ', '"abc" m1 ', '"" m1 ', '; c\n12 1.5e3 1/2 m1 ', '"x\u4e2d\n\u4e2d" m1 ',
+               '|a\nb| m1 ', '"\n\u00e9" m1 ', '"a\r\nb" m1 ']
+_SLICE_CACHE = {}
+
+
+def slice_probes(fb):
+    """texts with line breaks and multi-byte characters inside strings, |identifiers| and after comments, through the whole lexer:
+    -> (rows [(text, outcome)], visited function names); outcome 'ok' | ('panic', msg, fn) | ('stuck', why)"""
+    if id(fb) in _SLICE_CACHE:
+        return _SLICE_CACHE[id(fb)]
+    vis, rows = set(), []
+    for label, text in LOCATION_TEXTS:
+        SLICE = text + " "
+        toks = lex(fb, SLICE, max_tokens=30, visited=vis)
+        rows.append((SLICE, toks[-1] if toks and toks[-1][0] in ("panic", "stuck") else "ok"))
+    for text in SLICE_TEXTS:
+        toks = lex(fb, text, max_tokens=30, visited=vis)
+        rows.append((text, toks[-1] if toks and toks[-1][0] in ("panic", "stuck") else "ok"))
+    _SLICE_CACHE[id(fb)] = (rows, vis)
+    return rows, vis
